@@ -66,6 +66,9 @@ func (s *Subscribe) Decode(src []byte) (int, error) {
 		return total, err
 	}
 
+	// ignore bytes that follow the packet
+	src = limitToPacket(src)
+
 	// check buffer length
 	if len(src) < total+2 {
 		return total, insufficientBufferSize(SUBSCRIBE)
